@@ -397,6 +397,14 @@ func runC05(p *Prog, r *Report) {
 			return
 		}
 		if len(hdr.Succs) == 2 && hdr.Succs[0].Dominates(u.Block()) {
+			// the default origin (element 0) taken on an error exit inside the loop is not an "absent
+			// from an earlier view" answer
+			if k, isK := constInt(ia.Index); isK && k == 0 {
+				errHolds, _ := guardEdges(fn, condNonNil(func(v ssa.Value) bool { return v.Type().String() == "error" }))
+				if len(errHolds) > 0 && !reachable(hdr.Succs[0], edgesOf(errHolds), nil)[u.Block()] {
+					return
+				}
+			}
 			r.Check(ia.Index == ssa.Value(lastPhi), "D3-skip", fa.key+":origin", p.Pos(u.Pos()), "origin = details of the latest scanned layer", "when a package is absent from an earlier view its origin is not set to the latest layer that was actually scanned (the layer after the gap)")
 		}
 	})
